@@ -2,7 +2,7 @@
 # usage: tools/sweep_snap.sh seeds|refactor <result file>
 # runs from a SNAPSHOT of /verif (so that /verif can be edited meanwhile) against a scratch worktree of /repo HEAD.
 #   seeds:    every seeded/<id>/patch.diff against the check of the property it breaks (expected: exit 1)
-#   refactor: every /tmp/refac/out/r*.diff against all 20 checks (expected: exit 0; 1 = false alarm)
+#   refactor: every seeded/refactorings/*.diff (behaviour-preserving edits) against all 20 checks (expected: exit 0 or 2; 1 = false alarm)
 mode=$1; res=$2; snap=/tmp/verif_snap_$mode; wt=/tmp/sweep_wt_$mode
 rm -rf $snap; mkdir -p $snap; rsync -a --exclude .git --exclude out /verif/ $snap/
 git -C /repo worktree remove --force $wt 2>/dev/null; git -C /repo worktree prune
@@ -20,7 +20,7 @@ if [ "$mode" = seeds ]; then
     echo "$id | exit=$rc | violations=$v (without input: $nf) | $first" >> $res
   done
 else
-  for p in /tmp/refac/out/r*.diff; do
+  for p in $snap/seeded/refactorings/*.diff; do
     n=$(basename $p .diff)
     git -C $wt checkout -q -- . ; git -C $wt clean -fdq
     git -C $wt apply $p 2>/dev/null || { echo "$n | does not apply" >> $res; continue; }
